@@ -35,6 +35,15 @@ Proof.
     rewrite fold_left_app, wm_payloads; reflexivity.
 Qed.
 
+(* source_iter([v]) -> persist::<'static>(): the value is present in every tick *)
+Lemma persist_const_gen : forall (v : val) (r : list env) i0,
+  stateful LStatic i0 persist_step [v] (map (fun _ => []) r) = map (fun _ => [v]) r.
+Proof. induction r as [|e r IH]; intros i0; simpl; [reflexivity|]. rewrite IH. reflexivity. Qed.
+
+Lemma persist_const : forall (v : val) (bs : list env),
+  op_run LStatic [] persist_step (first_tick [v] bs) = map (fun _ => [v]) bs.
+Proof. intros v [|e r]; [reflexivity|]. unfold op_run. simpl. rewrite persist_const_gen. reflexivity. Qed.
+
 (* C30 (i): inside a tick every bounded operator equals its list function on the batch *)
 Theorem brun_bspec : forall n bs, brun n bs = bspec n bs.
 Proof.
@@ -44,6 +53,7 @@ Proof.
   - (* BGen *) apply map_ext. intros xs. apply gen_init.
   - (* BDefer *) apply defer_shift.
   - (* BReduceKeyedWm *) apply map_ext. intros [xs ws]. apply wm_fold_spec.
+  - (* BConst *) apply persist_const.
 Qed.
 
 Lemma nth_removelast : forall (A : Type) (l : list A) t d,
@@ -78,6 +88,6 @@ Qed.
 Lemma brun_length : forall n bs, length (brun n bs) = length bs.
 Proof.
   induction n; intros bs; simpl; unfold op_run;
-    rewrite ?map_length, ?stateful_length, ?combine_length, ?IHn, ?IHn1, ?IHn2;
+    rewrite ?map_length, ?stateful_length, ?combine_length, ?first_tick_length, ?IHn, ?IHn1, ?IHn2;
     try reflexivity; try apply Nat.min_id.
 Qed.
